@@ -1,9 +1,10 @@
 #!/bin/bash
-# tools/import_mutants.sh <Cxx> : copies the sub-agent's mutants from /tmp/wt-<Cxx>/mutants/<n> into
+# tools/import_mutants.sh <Cxx> [worktree-prefix] : copies the sub-agent's mutants from /tmp/wt-<Cxx>/mutants/<n> into
 # /verif/seeded/<Cxx>-<k> (next free k), then removes the agent's worktree.
 ID=$1
+PFX=${2:-wt}
 for n in 1 2 3; do
-  src=/tmp/wt-$ID/mutants/$n
+  src=/tmp/$PFX-$ID/mutants/$n
   [ -f $src/patch.diff ] || continue
   k=1; while [ -d /verif/seeded/$ID-$k ]; do k=$((k+1)); done
   dst=/verif/seeded/$ID-$k
@@ -15,5 +16,5 @@ for n in 1 2 3; do
   find $dst -name '*.js' -o -name '*.js.map' -o -type f -size +200k | xargs -r rm -f
   echo "imported $src -> $dst"
 done
-git -C /repo worktree remove --force /tmp/wt-$ID 2>/dev/null
-rm -rf /tmp/wt-$ID /tmp/wt-$ID-scratch
+git -C /repo worktree remove --force /tmp/$PFX-$ID 2>/dev/null
+rm -rf /tmp/$PFX-$ID /tmp/$PFX-$ID-scratch
